@@ -114,7 +114,8 @@ def mods():
     global _mods
     if _mods is None:
         if REPO not in sys.path: sys.path.insert(0, REPO)
-        from pbhhg_py import parse, interpret, abstract_syntax as AS, main as M
+        from pbhhg_py import abstract_syntax as AS          # the order cli.py imports them in (a change may make another order circular)
+        from pbhhg_py import interpret, main as M, parse
         _mods = (parse, interpret, AS, M)
     return _mods
 
@@ -186,6 +187,7 @@ def _pool_init():
 def pmap(fn, items, chunksize=50):
     if len(items) < 64:
         _pool_init(); return [fn(x) for x in items]
+    _pool_init()          # in the parent first: a tree that cannot be imported raises HERE (a failing initializer makes the pool respawn workers forever)
     with multiprocessing.get_context("fork").Pool(NPROC, initializer=_pool_init) as p:
         return p.map(fn, items, chunksize=chunksize)
 
